@@ -29,7 +29,7 @@ def opSLFit (a : Args) : Except String String := do
     pure (s!"ok folds={";".intercalate (folds.map (showList toString))} coefs={showOptCoefs coefs} " ++
       s!"keep={showList toString (retained coefs)} trace={"|".intercalate (evs.map showSLEv)}")
 
-def parseRows {α} (p : String → Option α) (s : String) : Option (List (List α)) :=
+def parseMatrix {α} (p : String → Option α) (s : String) : Option (List (List α)) :=
   if s == "" || s == "-" then some [] else (s.splitOn ";").mapM (parseList p)
 
 /-- `slpredict loss=l2 coefs=<rat> preds=<row;row;…>` (exact) or `loss=nloglik b=<float> coefs=<float> preds=…` -/
@@ -37,12 +37,12 @@ def opSLPredict (a : Args) : Except String String := do
   let loss ← need a "loss" some
   if loss == "l2" then
     let coefs ← rts a "coefs"
-    let rows ← need a "preds" (parseRows parseRat)
+    let rows ← need a "preds" (parseMatrix parseRat)
     pure ("ok y=" ++ showList showRat (rows.map (predictL2 coefs)))
   else
     let coefs ← fls a "coefs"
     let b ← fl a "b"
-    let rows ← need a "preds" (parseRows parseFloat)
+    let rows ← need a "preds" (parseMatrix parseFloat)
     pure ("ok y=" ++ showList showFloat (rows.map (predictNll logit expit b coefs)))
 
 /-- `slerr loss= y= p= [b=]`: the cross-validated error term of one candidate -/
